@@ -281,4 +281,24 @@ theorem pollLoop_delivers (cfg : Cfg) (pre post : List (Nat × Option Res)) (lay
         obtain ⟨p, h1, p', h2⟩ := ih _ _ _ hf' h
         exact ⟨id :: p, by simp [ids] at h1 ⊢; exact h1, p', by simp [ids] at h2 ⊢; exact h2⟩
 
+/-- a block of finished handles none of which failed, then a handle whose decode failed: the loop takes the block and
+    the failing handle, reports the error and leaves the rest of the queue untouched -/
+theorem pollLoop_stops_at_err (cfg : Cfg) (pre post : List (Nat × Option Res)) (bad : Nat) (layer : List Img)
+    (log : List Nat) (upd : Bool) (hf : AllFinished pre) (hne : ∀ e ∈ pre, e.2 ≠ some .err) :
+    (pollLoop cfg (pre ++ (bad, some .err) :: post) layer log upd).2 = .err ∧
+      (pollLoop cfg (pre ++ (bad, some .err) :: post) layer log upd).1.queue = post := by
+  induction pre generalizing layer log upd with
+  | nil => simp [pollLoop_err]
+  | cons e pre ih =>
+    obtain ⟨id, h'⟩ := e
+    have hf' : AllFinished pre := fun e' h'' => hf e' (by simp [h''])
+    have hne' : ∀ e ∈ pre, e.2 ≠ some .err := fun e' h'' => hne e' (by simp [h''])
+    cases h' with
+    | none => have := hf (id, none) (by simp); simp at this
+    | some r =>
+      cases r with
+      | panicked => simp only [List.cons_append, pollLoop_panicked]; exact ih layer log upd hf' hne'
+      | err => exact absurd rfl (hne (id, some .err) (by simp))
+      | ok img => simp only [List.cons_append, pollLoop_ok]; exact ih _ _ _ hf' hne'
+
 end IcyVerif.SixelQueue
